@@ -427,3 +427,74 @@ def rule_field_versions(ctx, rep):
             if name in entries:
                 rep.check(r["version"] == entries[name]["version"], rule, f"{fam}.{name}.version",
                           f"{ctx.path(tables.FIELD_MODULES[fam])}:{r['line']}", r["version"], entries[name]["version"])
+
+
+def rule_tokens(ctx, rep):
+    """T-TOKEN: tokenisation, comments, whitespace and byte-literal spellings"""
+    import base64 as _b64
+    rule = "T-TOKEN"
+    rep.rule(rule, "comments, indentation, repeated whitespace and the byte-literal spellings (hex, quoted with escapes and '//' inside, base64/b64, "
+                   "base32/b32 in both the prefix and the call form) parse to the instruction the assembler would produce; unknown opcodes are "
+                   "kept verbatim; malformed literals are rejected")
+    w = ctx.world
+    pl = w.func(PARSE, "parse_line")
+    where = ctx.path(PARSE)
+    hx = lambda b: "0x" + b.hex()
+    b64 = lambda s: hx(_b64.b64decode(s + "=" * (-len(s) % 4)))
+    b32 = lambda s: hx(_b64.b32decode(s + "=" * (-len(s) % 8)))
+    rows = [
+        ("int 1 // comment", "Int", "int 1"), ("int 1 //comment", "Int", "int 1"), ("\tint\t1", "Int", "int 1"), ("   int     1   ", "Int", "int 1"),
+        ("int 1 // a // b", "Int", "int 1"), ("bnz   l1   // x", "BNZ", "bnz l1"), ("txn  Fee", "Txn", "txn Fee"), ("gtxn 0   RekeyTo // c", "Gtxn", "gtxn 0 RekeyTo"),
+        ("label_1: // c", "Label", "label_1:"), ("  l2:", "Label", "l2:"), ("#pragma version 6", "Pragma", "#pragma version 6"),
+        ('byte "a // b" // c', "Byte", 'byte "a // b"'), ('byte "a b"', "Byte", 'byte "a b"'), ('byte "a\\"b"', "Byte", 'byte "a\\"b"'), ('byte ""', "Byte", 'byte ""'),
+        ('byte "//"', "Byte", 'byte "//"'), ("byte 0xAbCd", "Byte", "byte 0xAbCd"), ("byte 0x", "Byte", "byte 0x"),
+        ("byte base64 AAEC", "Byte", "byte " + b64("AAEC")), ("byte b64 AAEC", "Byte", "byte " + b64("AAEC")), ("byte base64(AAEC)", "Byte", "byte " + b64("AAEC")),
+        ("byte b64(AAEC)", "Byte", "byte " + b64("AAEC")), ("byte b64 AA==", "Byte", "byte " + b64("AA==")), ("byte b64 AA", "Byte", "byte " + b64("AA")),
+        ("byte base64 iZWMx72KvU6Bw6sPAWQFL96YH+VMrBA0XKWD9XbZOZI=", "Byte", "byte " + b64("iZWMx72KvU6Bw6sPAWQFL96YH+VMrBA0XKWD9XbZOZI=")),
+        ("byte base32 AAAQE", "Byte", "byte " + b32("AAAQE")), ("byte b32 AAAQE===", "Byte", "byte " + b32("AAAQE===")), ("byte base32(AAAQE)", "Byte", "byte " + b32("AAAQE")),
+        ("byte b32(MFRGGZDFMY======)", "Byte", "byte " + b32("MFRGGZDFMY======")), ("pushbytes b64 AAEC // c", "PushBytes", "pushbytes " + b64("AAEC")),
+        ('pushbytess "a b" 0x01 b64 AA== base32(AAAQE)', "PushBytess", 'pushbytess "a b" 0x01 ' + b64("AA==") + " " + b32("AAAQE")),
+        ('bytecblock 0x01 "x y" // consts', "Bytecblock", 'bytecblock 0x01 "x y"'), ("intcblock 1 0x10 // c", "Intcblock", "intcblock 1 16"),
+        ("addr 7777777777777777777777777777777777777777777777777777Y5HFKQ // c", "Addr", "addr 7777777777777777777777777777777777777777777777777777Y5HFKQ"),
+        ("foo 1 2", "UnsupportedInstruction", "UNSUPPORTED foo 1 2"), ("frobnicate", "UnsupportedInstruction", "UNSUPPORTED frobnicate"),
+        ("b== // c", "BEq", "b=="), ("b!=", "BNeq", "b!="), ("b l1", "B", "b l1"), ("b>", "BGreater", "b>"), ("b>=", "BGreaterE", "b>="), ("b<=", "BLessE", "b<="),
+        ("b+", "BAdd", "b+"), ("bz l", "BZ", "bz l"), ("bzero", "BZero", "bzero"), ("bitlen", "BitLen", "bitlen"), ("b~", "BBitwiseInvert", "b~"),
+        ("!", "Not", "!"), ("!=", "Neq", "!="), ("=", None, None),
+    ]
+    for line, cname, printed in rows:
+        try:
+            o = w.call(pl, line)
+            got = (o.cls.name, " ".join(Interp(o.cls.mod).to_str(o).split())) if isinstance(o, Obj) else (None, repr(o))
+        except PyRaise as e:
+            got = ("RAISES", e.exc)
+        if cname is None:
+            rep.check(got[0] in ("UnsupportedInstruction", "RAISES"), rule, f"'{line}' is no opcode", where, got, "unsupported or rejected")
+            continue
+        rep.check(got == (cname, printed), rule, f"'{line}'", where, got, (cname, printed), why="the line is not parsed to the instruction it denotes",
+                  sample={"line": line, "class": cname, "printed": printed})
+    for line in ("", "   ", "\t", "// only a comment", "   // indented comment"):
+        try:
+            got = w.call(pl, line)
+        except PyRaise as e:
+            got = f"RAISES {e.exc}"
+        rep.check(got is None, rule, f"no instruction for {line!r}", where, repr(got), None)
+    for line in ('byte "abc', "byte xyz", "byte base64", "byte b32(AA", "pushbytes"):
+        try:
+            o = w.call(pl, line)
+            got = "accepted as " + (o.cls.name if isinstance(o, Obj) else repr(o))
+        except PyRaise as e:
+            got = f"rejected ({e.exc})"
+        rep.check(got.startswith("rejected") or "Unsupported" in got, rule, f"malformed {line!r} rejected", where, got, "rejected")
+    # line numbers are the 1-based source lines, comment-only and blank lines count
+    fp = w.func("tealer.teal.parse_teal", "first_pass")
+    import collections
+    lines = ["#pragma version 6", "", "// c", "  int 1 // x", "", "l:", "// c2", "return"]
+    labels, subs, instrs = {}, collections.defaultdict(list), []
+    w.call(fp, lines, labels, subs, instrs)
+    got = [(w.getattr(i, "line"), " ".join(Interp(i.cls.mod).to_str(i).split())) for i in instrs]
+    want = [(1, "#pragma version 6"), (4, "int 1"), (6, "l:"), (8, "return")]
+    rep.check(got == want, rule, "recorded line numbers", ctx.path("tealer.teal.parse_teal"), got, want)
+    src_kept = [w.getattr(i, "source_code") for i in instrs]
+    rep.check(src_kept == ["#pragma version 6", "  int 1 // x", "l:", "return"], rule, "source text kept per instruction", where, src_kept, "verbatim lines")
+    cm = [w.getattr(i, "comments_before_ins") for i in instrs]
+    rep.check(cm == [[], ["// c"], [], ["// c2"]], rule, "comment lines attached to the next instruction", where, cm, [[], ["// c"], [], ["// c2"]])
